@@ -69,6 +69,7 @@ def decode (d : DState) (k : Kind) (w : List String) : Option (Op × List Outcom
   | .read, ["set_read_cb"] => some (.rSetReader, [{}])
   | .read, ["open1"] => some (.rOpen none false, outcomes [.fatal, .failed, .warn] [.ok] [.ok] [0] [false] [0, 1, 2, 3])
   | .read, ["next_header"] | .read, ["next_header2"] => some (.rNextHeader, outcomes rcs rcs [.ok] [0] [false] [0])
+  | .read, ["read_data", "0"] => unch
   | .read, ["read_data", _] => some (.rReadData, outcomes rcs [.ok] [.ok] [0] [false, true] [0])
   | .read, ["read_data_block"] => some (.rReadDataBlock, outcomes rcs [.ok] [.ok] [0] [false] [0])
   | .read, ["data_skip"] => some (.rDataSkip, outcomes rcs [.ok] [.ok] [0] [false] [0])
